@@ -11,3 +11,11 @@ func simReset(seed uint64)
 
 // ResetRuntime restarts the runtime's deterministic tie-break streams.
 func ResetRuntime(seed uint64) { simReset(seed) }
+
+//go:linkname simSetYield runtime.simSetYield
+func simSetYield(permille uint32)
+
+// SetLockYield makes every sync.Mutex / RWMutex acquisition inside the bubble a
+// seeded scheduling point with the given probability (per mille); 0 switches
+// it off. Plans of the race/deadlock property set it from a knob.
+func SetLockYield(permille int) { simSetYield(uint32(permille)) }
